@@ -32,6 +32,14 @@ pub struct Outcome {
 }
 
 static SCRATCH_ID: AtomicU64 = AtomicU64::new(0);
+/// sessions that had to be killed so far: on a tree that hangs, the sweep stops early instead of waiting
+/// for thousands of timeouts (the hangs seen so far are reported; nothing is claimed about the rest)
+pub static HANGS: AtomicU64 = AtomicU64::new(0);
+pub const MAX_HANGS: u64 = 10;
+
+pub fn too_many_hangs() -> bool {
+    HANGS.load(Ordering::Relaxed) >= MAX_HANGS
+}
 
 fn scratch_dir() -> std::path::PathBuf {
     let base = std::env::var("TMPDIR").unwrap_or_else(|_| "/tmp".to_string());
@@ -75,7 +83,7 @@ pub enum End {
 }
 
 pub fn default_opts<'a>() -> RunOpts<'a> {
-    RunOpts { bin: BIN_ON, hooks: true, end: End::Quit, timeout: Duration::from_secs(20), args: Vec::new(), pace_ms: 0 }
+    RunOpts { bin: BIN_ON, hooks: true, end: End::Quit, timeout: Duration::from_secs(8), args: Vec::new(), pace_ms: 0 }
 }
 
 /// Run one fresh process of the engine through a session (after the `uci` handshake).
@@ -160,6 +168,7 @@ pub fn run_session(cmds: &[Cmd], opts: &RunOpts) -> Outcome {
             Ok(None) => {
                 if t0.elapsed() > opts.timeout {
                     timed_out = true;
+                    HANGS.fetch_add(1, Ordering::Relaxed);
                     let _ = child.kill();
                     let st = child.wait().ok();
                     exit_code = st.and_then(|s| s.code());
@@ -220,7 +229,7 @@ pub fn run_parallel<T: Send, F: Fn(usize) -> T + Sync>(n: usize, f: F) -> Vec<T>
         for _ in 0..threads() {
             s.spawn(|| loop {
                 let i = idx.fetch_add(1, Ordering::Relaxed);
-                if i >= n {
+                if i >= n || too_many_hangs() {
                     break;
                 }
                 let r = f(i);
@@ -355,6 +364,10 @@ pub fn run_c16(rep: &Report) -> i32 {
     let probes = probes();
     // fresh engine: handshake + probe only
     let fresh: Vec<Outcome> = run_parallel(probes.len(), |i| run_session(&probes[i], &default_opts()));
+    if fresh.len() != probes.len() || too_many_hangs() {
+        rep.note("aborted: too many sessions had to be killed (see the violations reported)".to_string());
+        return rep.finish(g.nodes.len() as u64, g.edges.max(1), 0, false, "aborted after repeated hangs");
+    }
     for (i, f) in fresh.iter().enumerate() {
         let again = run_session(&probes[i], &default_opts());
         if replies(&again) != replies(f) || last_state(&again) != last_state(f) {
@@ -507,6 +520,15 @@ pub fn run_c17(rep: &Report) -> i32 {
         s.push(c("isready"));
         run_session(&s, &default_opts())
     });
+    if base_runs.len() != sessions.len() || too_many_hangs() {
+        rep.note("aborted: too many sessions had to be killed".to_string());
+        for (i, o) in base_runs.iter().enumerate() {
+            if o.timed_out {
+                rep.fail("C08", "session-hangs", format!("session {:?} had to be killed", sessions[i].iter().map(|c| c.line.clone()).collect::<Vec<_>>()), session_json(&sessions[i]));
+            }
+        }
+        return rep.finish(sessions.len() as u64, base_runs.len().max(1) as u64, 0, false, "aborted after repeated hangs");
+    }
     let garbage_runs = AtomicU64::new(0);
     let readyoks = AtomicU64::new(0);
     let lifecycle_runs = AtomicU64::new(0);
@@ -612,6 +634,10 @@ pub fn c10_sessions(rep: &Report) -> (u64, u64) {
         "position fen 8/8/k7/p7/P7/K7/8/8 w - - 0 1 moves a3b3 a6b6 b3a3 b6a6 a3b3 a6b6",
     ];
     let alone: Vec<Outcome> = run_parallel(cmds.len(), |i| run_session(&[c(cmds[i]), c("go")], &default_opts()));
+    if alone.len() != cmds.len() || too_many_hangs() {
+        rep.fail("C08", "session-hangs", "position + go sessions had to be killed".to_string(), session_json(&[c(cmds[0]), c("go")]));
+        return (0, 0);
+    }
     let mut sessions: Vec<Vec<usize>> = Vec::new();
     for a in 0..cmds.len() {
         for b in 0..cmds.len() {
